@@ -96,6 +96,8 @@ class Build:
                 if not f.endswith('.rs'): continue
                 p = os.path.join(d, f)
                 rel = os.path.relpath(p, self.scratch)
+                mfeat = re.match(r'src/(eval_\w+)/', rel)
+                if mfeat and mfeat.group(1) not in feats: continue          # module not compiled in this feature set
                 txt = open(p).read()
                 # drop the unit-test module (never part of the library build)
                 cut = re.search(r'\n#\[cfg\(test\)\]\s*\nmod tests', txt)
@@ -296,6 +298,19 @@ class Program:
         if not m: return False
         line = self.lines.get(m.group(2), [''] * (int(m.group(3)) + 1))[int(m.group(3)) - 1]
         return '#[derive(' in line
+
+    def entry(self, ev, what):
+        """name of a well-known function of evaluator `ev`, robust against path trimming in reduced-feature builds:
+        what in public | eval | parser_new | parser_parse | tok_new | tok_next"""
+        if what == 'public':
+            c = [n for n in self.fns if n == 'eval_' + ev or n.endswith('::eval_' + ev)]
+        elif what == 'eval':
+            c = [n for n in self.fns if n in ('eval_%s::ast::eval' % ev, 'ast::eval', 'eval')]
+        else:
+            file_, meth = {'parser_new': ('parser', 'new'), 'parser_parse': ('parser', 'parse'), 'tok_new': ('tokenizer', 'new'), 'tok_next': ('tokenizer', 'next')}[what]
+            c = [n for n in self.fns if re.search(r'<impl at src/eval_%s/%s\.rs:[^>]*>::%s$' % (ev, file_, meth), n)]
+        if len(c) != 1: raise KeyError('entry %s of eval_%s matches %d functions: %s' % (what, ev, len(c), c[:4]))
+        return c[0]
 
     def find_fn(self, pattern):
         """first crate function whose name matches the regex (harness entry points)"""
